@@ -111,7 +111,7 @@ Proj(st) == [quit |-> IF st.quit THEN 1 ELSE 0, ret |-> st.ret, msg |-> st.msg,
 DiskProj(st) == [p \in {q \in DOMAIN st.disk : st.disk[q].ex} |-> st.disk[p].lines]
 (* the spec's own properties on every generated step *)
 Thm(s, c, t) == /\ DirtySound(t) /\ NoLoss(t) /\ TableOK(t)
-                /\ (c.k = "b" /\ c.how \in {"num", "next", "prev", "alias"}) => SameBufs(s, t)
+                /\ (c.k = "b" /\ c.how \in {"num", "next", "prev", "alias"} /\ ~(s.aw /\ Dirty(Cur(s)))) => SameBufs(s, t)
                 (* returning to an open path changes no buffer and no file - unless autowrite first saves the modified current buffer *)
                 /\ (c.k = "e" /\ c.path # "" /\ FindPath(s, c.path) > 0 /\ ~(s.aw /\ Dirty(Cur(s)))) => (SameBufs(s, t) /\ t.disk = s.disk)
 
